@@ -65,6 +65,9 @@ Qed.
 Lemma add_one_nocrash typs : add_one typs <> Crash.
 Proof. unfold add_one. split_args typs; crush. Qed.
 
+Lemma add_one_typed_nocrash typs : add_one_typed typs <> Crash.
+Proof. unfold add_one_typed. split_args typs; crush. Qed.
+
 Lemma add_one_or_two_nocrash typs : add_one_or_two typs <> Crash.
 Proof. unfold add_one_or_two. split_args typs; crush. Qed.
 
@@ -141,7 +144,7 @@ Proof.
   unfold add_fmap. split_args typs; try discriminate.
   destruct b; try discriminate;
     try apply fmap_fn1_nocrash; try apply fmap_errorInOut_nocrash.
-  apply need_nocrash, fmap_fn1_nocrash.
+  all: apply need_nocrash, fmap_fn1_nocrash.
 Qed.
 
 Lemma add_setop_nocrash typs : add_setop typs <> Crash.
@@ -159,7 +162,8 @@ Qed.
 Lemma join_chans_nocrash typs prev : join_chans prev typs <> Crash.
 Proof.
   revert prev; induction typs as [|t r IH]; intros prev; cbn; [discriminate|].
-  destruct t; try discriminate. destruct prev; [apply need_nocrash|]; apply IH.
+  destruct t; try discriminate. apply need_nocrash.
+  destruct prev; [apply need_nocrash|]; apply IH.
 Qed.
 
 Lemma add_join_nocrash typs : add_join typs <> Crash.
@@ -169,6 +173,7 @@ Proof.
   - destruct a; try discriminate; repeat apply need_nocrash; discriminate.
   - apply join_errorType_nocrash.
   - destruct a; try (apply need_nocrash; first [discriminate | apply join_chans_nocrash]).
+    repeat apply need_nocrash. discriminate.
   - destruct ts as [|t1 [|t2 [|t3 ts]]]; cbn [alen Nat.eqb at_ anth]; try discriminate.
     apply join_errorType_nocrash.
 Qed.
@@ -179,22 +184,24 @@ Proof. unfold add_minmax. split_args typs; crush. Qed.
 Lemma add_mem_nocrash typs : add_mem typs <> Crash.
 Proof. unfold add_mem. split_args typs; crush. Qed.
 
-Lemma funcInChanOut_nocrash t : funcInChanOut t <> inr Crash /\ funcInChanOut t <> inl None.
+Lemma funcInChanOut_nocrash t ro : funcInChanOut t ro <> inr Crash /\ funcInChanOut t ro <> inl None.
 Proof.
   unfold funcInChanOut. destruct t; try (split; discriminate).
   destruct ps as [|p1 [|p2 ps]]; cbn; try (split; discriminate).
   destruct rs as [|r1 [|r2 rs]]; cbn; try (split; discriminate).
-  destruct r1; split; discriminate.
+  destruct r1; try (split; discriminate).
+  destruct (is_send d); [split; discriminate|].
+  destruct (ro && negb (is_recv d)); split; discriminate.
 Qed.
 
 Lemma add_pipeline_nocrash typs : add_pipeline typs <> Crash.
 Proof.
   unfold add_pipeline. split_args typs; try discriminate.
-  pose proof (funcInChanOut_nocrash a) as [A1 A2].
-  pose proof (funcInChanOut_nocrash b) as [B1 B2].
-  destruct (funcInChanOut a) as [[[x y]|]|g]; try congruence.
+  pose proof (funcInChanOut_nocrash a false) as [A1 A2].
+  pose proof (funcInChanOut_nocrash b true) as [B1 B2].
+  destruct (funcInChanOut a false) as [[[x y]|]|g]; try congruence.
   all: try (destruct g; congruence).
-  destruct (funcInChanOut b) as [[[x' y']|]|g]; try congruence.
+  destruct (funcInChanOut b true) as [[[x' y']|]|g]; try congruence.
   all: try (destruct g; congruence).
   apply need_nocrash; discriminate.
 Qed.
@@ -218,7 +225,10 @@ Proof.
 Qed.
 
 Lemma add_tuple_nocrash typs : add_tuple typs <> Crash.
-Proof. unfold add_tuple. apply need_nocrash; discriminate. Qed.
+Proof.
+  unfold add_tuple. apply need_nocrash.
+  destruct typs as [|[] [|? ?]]; try discriminate; apply need_nocrash; discriminate.
+Qed.
 
 Lemma add_uncurry_nocrash typs : add_uncurry typs <> Crash.
 Proof.
@@ -232,7 +242,7 @@ Theorem no_crash : forall p typs, add_model p typs <> Crash.
 Proof.
   intros p typs; destruct p; cbn [add_model];
     first [ apply add_pred_nocrash | apply add_apply_nocrash | apply add_one_nocrash
-          | apply add_one_or_two_nocrash | apply add_compose_nocrash | apply add_contains_nocrash
+          | apply add_one_typed_nocrash | apply add_one_or_two_nocrash | apply add_compose_nocrash | apply add_contains_nocrash
           | apply add_curry_nocrash | apply add_deepcopy_nocrash | apply add_do_nocrash
           | apply add_dup_nocrash | apply add_fmap_nocrash | apply add_setop_nocrash
           | apply add_join_nocrash | apply add_minmax_nocrash | apply add_mem_nocrash
@@ -354,7 +364,7 @@ Proof.
   destruct (add_model p typs) eqn:A; cbn [gseq]; try discriminate; [|exfalso; exact (no_crash p typs A)].
   destruct p; cbn [gen_model]; try discriminate;
     cbn [add_model] in A;
-    unfold add_one, add_one_or_two, add_deepcopy, add_contains, add_setop, add_minmax, add_mem in A;
+    unfold add_one, add_one_typed, add_one_or_two, add_deepcopy, add_contains, add_setop, add_minmax, add_mem in A;
     destruct typs as [|a [|b [|c l]]]; cbn [length Nat.eqb orb need idx nth_error] in A; try discriminate;
     cbn [idx nth_error];
     first [ apply eq_stmt_nocrash | apply cmp_stmt_nocrash | apply hash_stmt_nocrash | apply dc_stmt_nocrash
